@@ -72,11 +72,19 @@ def variants(rng, profile, n):
 
 
 def make_spec(st, idx, tier):
+    big = idx % 6 == 5
+    wk = dict(WORLD, n_states=(1, 2), n_counties=(8, 14), n_units=(14, 28), max_units=600, offices=["G", "S"]) if big else WORLD
     for _ in range(20):
-        world = make_world(st.world, WORLD)
-        if len(world["baseline"]) >= 30:
+        world = make_world(st.world, wk)
+        if len(world["baseline"]) >= (250 if big else 30):
             break
-    profile = make_profile(st.operator, world, PROFILE)
+    profile = make_profile(st.operator, world, dict(PROFILE, estimators=["gaussian", "nonparametric"], fixed_effects_p=0.0) if big else PROFILE)
+    if big:
+        # many reporting units and two levels less than 0.01 apart that agree to two decimals: the quantile fits differ,
+        # the requests are distinct, and anything keyed by a rounded level would conflate them
+        k = int(st.operator.integers(60, 99))
+        profile["prediction_intervals"] = [round(k / 100 - 0.0049, 4), round(k / 100 + 0.0049, 4)] + profile["prediction_intervals"][2:]
+        profile["threshold"] = 100
     if profile["pi_method"] == "bootstrap":
         profile["aggregates"] = ["postal_code"] + [a for a in profile["aggregates"] if a != "postal_code"]
     if profile["model_parameters"].get("fit_turnout_outlier_model") and "unit" not in profile["aggregates"]:
@@ -85,7 +93,7 @@ def make_spec(st, idx, tier):
     mp = profile["model_parameters"]
     tf = (mp.get("turnout_factor_lower", 0.5), mp.get("turnout_factor_upper", 2.0))
     ops = []
-    progress = float(st.sched.uniform(0.35, 1.0))
+    progress = float(st.sched.uniform(0.75, 0.95)) if big else float(st.sched.uniform(0.35, 1.0))
     for b in world["baseline"]:
         f = b["geographic_unit_fips"]
         vs, _ = unit_versions(st.release, world["truth"][f], b, k, profile["threshold"], tf)
